@@ -12,6 +12,7 @@ use log::warn;
 use maplit::hashmap;
 use snafu::{ensure, OptionExt, ResultExt};
 use std::collections::HashMap;
+use std::convert::TryFrom;
 use std::io::Write;
 use std::num::NonZeroU64;
 use std::path::{Path, PathBuf};
@@ -395,8 +396,20 @@ impl Command {
             })?
             .threshold
             .get();
-        let signature_count = signed_root.signed().signatures.len();
-        if threshold > signature_count as u64 {
+        // Count what a client counts: valid signatures by distinct keys of this root's own root
+        // role. Other signature entries (for example ones made with the keys of an older root
+        // through `--cross-sign`) do not bring the root any closer to its threshold.
+        if let Err(err) = signed_root
+            .signed()
+            .signed
+            .verify_role(signed_root.signed())
+        {
+            let signature_count = match err {
+                tough::schema::Error::SignatureThreshold { valid, .. } => {
+                    usize::try_from(valid).unwrap_or(usize::MAX)
+                }
+                _ => 0,
+            };
             // Return an error when the "ignore-threshold" flag wasn't set
             if !ignore_threshold {
                 return Err(error::Error::SignatureRoot {
